@@ -194,3 +194,34 @@ Definition parse_dmy_dash (s : str) : option Z :=
     end
   | _ => None
   end.
+
+(* strings.Fields: split around runs of unicode.IsSpace (the ASCII bytes and the multi-byte
+   encodings listed in ImpCommonA.ws_multi) *)
+Fixpoint ufields_fuel (fuel : nat) (s : str) (cur : str) : list str :=
+  let flush (rest : list str) := match cur with [] => rest | _ => rev cur :: rest end in
+  match fuel with
+  | O => flush []
+  | S f =>
+    match s with
+    | [] => flush []
+    | c :: t =>
+      if ws1 c then flush (ufields_fuel f t [])
+      else match drop_prefix_any ws_multi s with
+           | Some s' => flush (ufields_fuel f s' [])
+           | None => ufields_fuel f t (c :: cur)
+           end
+    end
+  end.
+Definition ufields (s : str) : list str := ufields_fuel (S (length s)) s [].
+
+(* an unanchored regular expression given by its matcher at one position *)
+Fixpoint rx_anywhere (here : str -> bool) (s : str) : bool :=
+  here s || match s with [] => false | _ :: t => rx_anywhere here t end.
+
+(* `<word>[A-Z]+<sep>[A-Z]+` at the start of s: the first run of capitals is maximal because the
+   separator starts with a blank *)
+Definition rx_two_caps_here (word sep : str) (s : str) : bool :=
+  is_prefix word s &&
+  let '(a, rest) := span is_upper (skipn (length word) s) in
+  negb (is_empty a) && is_prefix sep rest &&
+  match skipn (length sep) rest with c :: _ => is_upper c | [] => false end.
